@@ -423,7 +423,7 @@ func Mask(raw []byte, legit []string) []byte {
 	}
 	sort.SliceStable(needles, func(i, j int) bool { return len(needles[i]) > len(needles[j]) })
 	for _, n := range needles {
-		s = strings.Replace(s, n, "\x00MASKED\x00", -1)
+		s = strings.Replace(s, n, "\x00\x01\x00", -1)
 	}
 	return []byte(s)
 }
